@@ -144,7 +144,7 @@ C("C05", "TestC05", P(2500), P(8000, 16, 2400), pkg="conc", flavour="inst",
   exhaustive_part="thorough tier: the C04 pre-emption enumerations re-run with the M5 monitor")
 
 C("C08", "TestC08", P(3000), P(8000, 16, 2400), pkg="conc", flavour="inst",
-  rule="engine of C04 with 2..4 processes running contention-heavy programs (Add with auto-compaction, CompactAll, AutoCompact, Clean, abandoned Additions) on a stack that always has >=3 tables; "
+  rule="engine of C04 with 2..4 processes running contention-heavy programs (Add with auto-compaction, CompactAll, range compactions, AutoCompact, Clean, committed and abandoned Additions of 0..3 tables) on a stack that always has >=3 tables; in a fifth of the cases an 'empty Addition' family (an Addition committed and closed without a table next to a writer that wants the lock, step-granular segment schedules); "
        "oracle M8 at every create/remove/rename of a *.lock path: a lock is created only while nobody owns it; a successful remove or rename of a lock file is performed by the process that created it; "
        "non-trivial = some lock acquisition failed with EEXIST in the case; distinct = hash of the case JSON",
   technique="property-based testing over schedules: lock-ownership monitor on the filesystem-call trace of a deterministic scheduler",
